@@ -13,6 +13,12 @@ from tsv.base import Prop, fail, short
 from tsv.props import common
 
 NAME = 'qq'
+# names outside the signature table that are easy to confuse with its entries
+# (starred / suffixed / re-cased variants) or with the structural keywords
+NAMES = ['qq', 'qq', 'qq*', 'q', 'section*', 'textbf*', 'label*', 'def*', 'cup*',
+         'in*', 'noindent*', 'infty*', 'Section', 'sectionx', 'textbfx', 'labels',
+         'item*', 'itemx', 'begin*', 'end*', 'newcommand*', 'leftx', 'bigx',
+         'subsection', 'textit', 'ref', 'frac']
 ATTACH = ['', ' ', '  ', '\t', '\n', ' \n', '\n ', ' \t\n\t ']
 DETACH = ['\n\n', ' \n \n', ',', '.', '%c\n', '\n\n\n', ' \n\n ', '!', '%\n', '%\n  ', ' %\n']
 ATTACH_R = ['', ' ', '\n', ' \n ']
@@ -47,7 +53,7 @@ def attaching(sep):
     return sep.strip(' \t') in ('', '\n') and sep.count('\n') <= 1
 
 
-def build(ctx, groups, seps, tail):
+def build(ctx, groups, seps, tail, NAME=NAME):
     """groups: [(kind, body)], seps: one per group.  -> (src, expected dict)"""
     c0, c1 = CONTEXTS[ctx]
     src = c0 + '\\' + NAME
@@ -91,7 +97,8 @@ def legal(ctx, groups, seps, tail):
 class C09(Prop):
     id = 'C09'
     level = 'exploration'
-    rule = ('cases: command \\qq (not in the signature table) with 0..3 bracket '
+    rule = ('cases: a command not in the signature table (\\qq; in the random part 25 names incl. '
+            'starred / suffixed variants of table entries and of the structural keywords) with 0..3 bracket '
             'groups then 0..4 brace groups, a separator before each group '
             '(8 attaching, 11 detaching kinds incl. the empty comment), group bodies with nested and '
             'unbalanced foreign delimiters, 8 tails, 15 enclosing contexts; '
@@ -147,8 +154,10 @@ class C09(Prop):
             ss = [rng.choice(ATTACH if rng.random() < .75 else DETACH) for _ in groups]
             ctx = rng.choice(ctxs)
             tail = rng.choice(TAILS)
+            name = rng.choice(NAMES)
             if legal(ctx, groups, ss, tail):
-                yield k, {'ctx': ctx, 'groups': groups, 'seps': ss, 'tail': tail}
+                yield k, {'ctx': ctx, 'groups': groups, 'seps': ss, 'tail': tail,
+                          'name': name}
         for ctx in CONTEXTS:
             for txt in ('a [ b', 'a ] b', '[', ']', 'x ]] [ y', 'f(x] = [0,1)'):
                 k += 1
@@ -171,7 +180,8 @@ class C09(Prop):
         if 'bare' in p:
             return p
         return {'src': short(build(p['ctx'], [tuple(g) for g in p['groups']],
-                                   p['seps'], p['tail'])[0], 200), 'ctx': p['ctx']}
+                                   p['seps'], p['tail'], p.get('name', NAME))[0], 200),
+                'ctx': p['ctx']}
 
     def check(self, p, ctx):
         from TexSoup.data import BraceGroup, BracketGroup
@@ -189,9 +199,11 @@ class C09(Prop):
                                  % short(repr(src)))]
             return []
         groups = [tuple(g) for g in p['groups']]
-        src, attached, out = build(p['ctx'], groups, p['seps'], p['tail'])
+        NAME = p.get('name', globals()['NAME'])
+        src, attached, out = build(p['ctx'], groups, p['seps'], p['tail'], NAME)
         soup = common.parse(src)
         node = soup.find(NAME)
+        ctx.seen('name', NAME)
         ctx.count('commands_checked')
         ctx.seen('context', p['ctx'])
         for i, s in enumerate(p['seps']):
@@ -218,6 +230,8 @@ class C09(Prop):
         g = []
         if len(m['sets'].get('context', ())) < len(CONTEXTS):
             g.append('not every context exercised')
+        if len(m['sets'].get('name', ())) < len(set(NAMES)):
+            g.append('not every command name exercised')
         if len(m['sets'].get('separator_at', ())) < 60:
             g.append('fewer than 60 (position, separator) combinations')
         if len(m['sets'].get('attached_count', ())) < 8:
